@@ -194,12 +194,15 @@ CLAIMED = {
         "clearing errors or not: (confined) no target byte outside the extents of requested, not yet valid chunks changes and valid chunks "
         "stay valid; (verified) a chunk that becomes valid holds at its extent bytes that hash to its index checksum (for every header the "
         "parser model accepts: extents proved disjoint); (mismatch) verification succeeds iff the hashed bytes have the index checksum, "
-        "otherwise the extent is zero-filled, the chunk marked failed and dl_write_range / the callback return 0.  Fragmentation "
-        "independence and completeness for well-formed responses are NOT theorems: they are evaluated on the implementation over "
+        "otherwise the extent is zero-filled, the chunk marked failed and dl_write_range / the callback return 0; (fragmentation, "
+        "single-range path) dwr_split / dwr_frags_state: for ANY bytes, one dl_write_range call with a ++ b ends in exactly the state "
+        "of the call with a followed - if a was taken completely and a chunk is still open, as at every cut of a well-formed payload - "
+        "by the call with b, and fails exactly when that fails, lifted to any list of fragments.  Fragmentation independence of the "
+        "MULTIPART path and completeness for well-formed responses are NOT theorems: they are evaluated on the implementation over "
         "families of fragmentations of the same response (all 1-cut, all 2-cut in thorough, 1..7-byte pieces, sampled k-cuts), against "
         "a reference server, with the model run on the same inputs.",
    design_ref="DESIGN.md section 7 C05",
-   note="Partial: frag_indep / wellformed_complete are checked, not proved. Trusted: Lean kernel (axioms propext, Classical.choice, "
+   note="Partial: multipart frag_indep and wellformed_complete are checked, not proved (the single-range fragmentation law is proved). Trusted: Lean kernel (axioms propext, Classical.choice, "
         "Quot.sound); hand-written model tied to the C by correspondence on explored inputs only; glibc regex enters as a logged oracle.",
    technique="Lean 4 proof (invariant over the six write-path fields preserved by three primitive steps, lifted generically through "
              "dl_write_range / multipart loop / callbacks by induction over fuel and fragment list; list-slice algebra for writes at "
